@@ -503,6 +503,13 @@ def st_table_case(draw, max_records=40, allow_dict=True, allow_enum=True, allow_
         fields[k] = odd[0]
         if nf > 1 and draw(st.booleans()):
             fields[(k + 1) % nf] = odd[1]
+    elif kind != "namedtuple" and draw(st.integers(0, 5)) == 0:
+        # field names as sql result columns have them (ak.mcaller_sql hands cursor.description names to PPTable)
+        odd = draw(st.permutations(["count(*)", "max(id)", "sum(a)", "n(1)", "avg(x)"]))
+        k = draw(st.integers(0, nf - 1))
+        fields[k] = odd[0]
+        if nf > 1 and draw(st.booleans()):
+            fields[(k + 1) % nf] = odd[1]
     enums = {}
     if allow_enum and kind != "tuple_nofields":
         for fn in fields:
